@@ -351,6 +351,11 @@ def dropOps (s : Snap) (t : Nat) : List Op :=
   .drop t :: (tableKeys s t).flatMap (fun key =>
     .del key :: (s.dvs.filter (fun x => x.1 == key)).map (fun x => Op.delDv key x.2.1))
 
+/-- `compact_table` (since /repo 5071ff5): `DeleteDV` for every delete vector the PINNED snapshot
+has on a selected row-set -/
+def dvDels (s : Snap) (sel : List Key) : List Op :=
+  sel.flatMap (fun key => (s.dvs.filter (fun x => x.1 == key)).map (fun x => Op.delDv key x.2.1))
+
 /-- `compact_table`: selection (all row-sets of the table in the pinned snapshot, by id) and the
 merged live rows; `none` when fewer than two row-sets are selected -/
 def compactPlan? (k : K) (e : Nat) (t : Nat) : Option (Option (List Key × List Int)) :=
@@ -532,10 +537,11 @@ def stepCommitBegin (s : Sys) (th : Tid) : Option Sys :=
        | some .compact, some tb, some (sel, rows) =>
            if !t.cpGot then none
            else if rows.isEmpty then
-             some (setTh s th { t with begun := true, ops := sel.map Op.del })
+             let ops := sel.map Op.del ++ dvDels (s.k.status t.snapE) sel
+             some (setTh s th { t with begun := true, ops := ops })
            else
-             some (setTh (withK s (kReserve s.k th tb)) th
-               { t with begun := true, ops := .add (tb, s.k.nextRid) rows :: sel.map Op.del })
+             let ops := .add (tb, s.k.nextRid) rows :: (sel.map Op.del ++ dvDels (s.k.status t.snapE) sel)
+             some (setTh (withK s (kReserve s.k th tb)) th { t with begun := true, ops := ops })
        | _, _, _ => none)
     else
       let p := getTh s (parent th)
@@ -581,7 +587,11 @@ def stepPanic (s : Sys) (th : Tid) : Option Sys :=
         | some k' =>
             let s1 := unlockAll (withK s k') th
             let p := getTh s1 (parent th)
-            some (setTh s1 (parent th) { p with res := some .panic })
+            -- the compactor pass runs on the actor's own task: the pass panics.  A statement's
+            -- operator task that panics closes its channel, which the session reads as the end
+            -- of the stream: the statement returns Ok with no rows.
+            let r := if th.2 == 0 then Res.panic else Res.rows []
+            some (setTh s1 (parent th) { p with res := some r })
         | none => none)
 
 def stepAppend (s : Sys) (_th : Tid) : Option Sys :=
